@@ -69,7 +69,8 @@ def main():
     wall_limit = min(wall_limit, budget)
     results = runner.run_workers(pid, names, tier, args.jobs, wall_limit, quick_ms, log)
     esc_s = meta.get('escalate_s', {}).get(tier, 30 if tier == 'quick' else 90)
-    n_esc = runner.escalate(results, esc_s, args.jobs, log)
+    esc_total = meta.get('escalate_total_s', {}).get(tier, 300 if tier == 'quick' else 600)
+    n_esc = runner.escalate(results, esc_s, args.jobs, log, total_s=esc_total)
     log(f"  escalated {n_esc} obligations to the portfolio ({esc_s}s budget)")
     # further rounds: branch sides that were only skipped on sample evidence and could not be refuted are explored
     for rnd in range(2, (4 if tier == 'quick' else 6)):
@@ -97,7 +98,7 @@ def main():
         wall_limit = min(wall_limit, max(60.0, left))
         log(f"  round {rnd}: exploring {sum(len(v) for v in roots.values())} unrefuted branch sides in {len(roots)} harnesses")
         more = runner.run_workers(pid, list(roots), tier, args.jobs, wall_limit, quick_ms, log, roots=roots)
-        runner.escalate(more, esc_s, args.jobs, log)
+        runner.escalate(more, esc_s, args.jobs, log, total_s=esc_total)
         for n, r2 in more.items():
             r = results[n]
             if r2.get('error'):
